@@ -1,5 +1,6 @@
 import PC.Proofs.SupArms
 import PC.Proofs.SupSd
+import PC.Proofs.SupSdSeq
 import PC.Spec.SupSpec
 /-! C03 — shutdown completeness (supervisor model). -/
 namespace PC.Props.C03
@@ -82,6 +83,19 @@ theorem ordered_shutdown_complete (gr : Gran) (o : Bool) (cfgs : List Cfg) {s0 s
     (h12 : ReachF (stepThread s0 t hh) s2) (hp2 : (s2.thr t).pc = .sdWg k') (hen : enabledThr s2 t = true) :
     ∀ i ∈ order, (s2.inst i).done = true :=
   ordered_shutdown_returns_after_all_done gr o cfgs h0 t order k k' hh ht hp hord hrun h12 hp2 hen
+
+/-- **Unordered (sequential) shutdown, end to end** (see
+    `PC.Sup.unordered_shutdown_returns_after_all_done`): from the state in which a thread has prepared
+    the shutdown of `order` in the default mode, while it works through its list (`ReachIn`: its own
+    steps are steps of that loop; every other thread and every external event is free), it can pass
+    the wait group only when every instance of `order` is done. -/
+theorem unordered_shutdown_complete (gr : Gran) (o : Bool) (cfgs : List Cfg) {s0 s2 : Sys}
+    (h0 : ReachF (init gr o cfgs) s0) (t : Tid) (order : List IId) (k k' : SdK) (hh : Hints)
+    (ht : t < s0.threads.length) (hp : (s0.thr t).pc = .sdPrepared order k) (hord : s0.ordered = false)
+    (hrun : enabledThr s0 t = true ∨ mustPark s0 t = false)
+    (h12 : ReachIn t (stepThread s0 t hh) s2) (hp2 : (s2.thr t).pc = .sdWg k') (hen : enabledThr s2 t = true) :
+    ∀ i ∈ order, (s2.inst i).done = true :=
+  unordered_shutdown_returns_after_all_done gr o cfgs h0 t order k k' hh ht hp hord hrun h12 hp2 hen
 
 /-- the premises are met: three processes with fan-in, ordered shutdown; two single steps into the
     shutdown request the thread has prepared the order `[0, 1, 2]`; at the end of the scenario it may
